@@ -237,6 +237,154 @@ def wsumOfParams (ps : List α) (ks : List (Kern α)) : Kern α :=
 
 end
 
+/-! ### Reconfiguration of a constructed kernel object
+
+A Shark kernel object is built once and then *reconfigured in place*: `ScaledKernel::setFactor`
+(this is what `NormalizeKernelUnitVariance::train` does), `setParameterVector` (every optimiser of
+kernel parameters).  The feature flags (`m_features`, in particular `IS_NORMALIZED`, which
+`featureDistanceSqr` trusts) are decided by the constructors and are never touched again.
+`KObj` models exactly that: the current expression plus the flag *as cached at construction*;
+the reconfiguration operations rewrite the expression and leave the cached flag alone. -/
+section
+variable {α : Type} [Add α] [Sub α] [Mul α] [Div α] [Neg α] [OfNat α 0] [OfNat α 1]
+
+mutual
+/-- number of `ScaledKernel` objects in the expression -/
+def Kern.numScaled : Kern α → Nat
+  | .scaled _ k => 1 + k.numScaled
+  | .normalized k => k.numScaled
+  | .wsum _ _ ks => numScaledList ks
+  | .prod ks => numScaledList ks
+  | .subrange _ _ k => k.numScaled
+  | .mapped _ _ k => k.numScaled
+  | _ => 0
+def numScaledList : List (Kern α) → Nat
+  | [] => 0
+  | k :: ks => k.numScaled + numScaledList ks
+end
+
+mutual
+/-- `ScaledKernel::setFactor(f)` on the `i`-th `ScaledKernel` object of the expression (pre-order) -/
+def Kern.setFactor (f : α) : Kern α → Nat → Kern α
+  | .scaled g k, i =>
+      match i with
+      | 0 => .scaled f k
+      | i + 1 => .scaled g (k.setFactor f i)
+  | .normalized k, i => .normalized (k.setFactor f i)
+  | .wsum ws s ks, i => .wsum ws s (setFactorList f ks i)
+  | .prod ks, i => .prod (setFactorList f ks i)
+  | .subrange a b k, i => .subrange a b (k.setFactor f i)
+  | .mapped A b k, i => .mapped A b (k.setFactor f i)
+  | k, _ => k
+def setFactorList (f : α) : List (Kern α) → Nat → List (Kern α)
+  | [], _ => []
+  | k :: ks, i =>
+      if i < k.numScaled then k.setFactor f i :: ks else k :: setFactorList f ks (i - k.numScaled)
+end
+
+/-- total number of entries of a list of rows -/
+def entryCount (A : List (List α)) : Nat := A.foldl (fun n row => n + row.length) 0
+
+/-- refill a list of rows from a flat parameter list (row-major, `LinearModel::setParameterVector`) -/
+def reshapeLike : List (List α) → List α → List (List α)
+  | [], _ => []
+  | row :: rows, ps => ps.take row.length :: reshapeLike rows (ps.drop row.length)
+
+mutual
+/-- `numberOfParameters()` (sub-kernels of a weighted sum are not adaptive: the constructor default) -/
+def Kern.numParams : Kern α → Nat
+  | .linear => 0
+  | .poly _ _ => 1
+  | .monomial _ => 0
+  | .gauss _ => 1
+  | .ard gs => gs.length
+  | .normalized k => k.numParams
+  | .scaled _ k => k.numParams
+  | .wsum _ _ ks => ks.length - 1
+  | .prod ks => numParamsList ks
+  | .subrange _ _ k => k.numParams
+  | .mapped A b k => k.numParams + (entryCount A + b.length)
+def numParamsList : List (Kern α) → Nat
+  | [] => 0
+  | k :: ks => k.numParams + numParamsList ks
+end
+
+variable (exp : α → α)
+
+mutual
+/-- `setParameterVector(ps)`: polynomial offset and Gaussian γ are stored as given, ARD γᵢ = exp pᵢ,
+weighted-sum weightᵢ₊₁ = exp pᵢ (weight₀ is not a parameter and keeps its value) and
+`m_weightsum = 1 + Σ weightᵢ₊₁`; wrappers forward; products and model kernels split the vector. -/
+def Kern.setParams : Kern α → List α → Kern α
+  | .linear, _ => .linear
+  | .poly d _, ps => .poly d (ps.headD 0)
+  | .monomial n, _ => .monomial n
+  | .gauss _, ps => .gauss (ps.headD 0)
+  | .ard _, ps => .ard (ps.map exp)
+  | .normalized k, ps => .normalized (k.setParams ps)
+  | .scaled f k, ps => .scaled f (k.setParams ps)
+  | .wsum ws _ ks, ps =>
+      let q := ps.take (ks.length - 1)
+      .wsum (ws.headD 1 :: q.map exp) (q.foldl (fun s p => s + exp p) 1) ks
+  | .prod ks, ps => .prod (setParamsList ks ps)
+  | .subrange a b k, ps => .subrange a b (k.setParams ps)
+  | .mapped A b k, ps =>
+      let rest := ps.drop k.numParams
+      .mapped (reshapeLike A rest) ((rest.drop (entryCount A)).take b.length) (k.setParams (ps.take k.numParams))
+def setParamsList : List (Kern α) → List α → List (Kern α)
+  | [], _ => []
+  | k :: ks, ps => k.setParams (ps.take k.numParams) :: setParamsList ks (ps.drop k.numParams)
+end
+
+/-- a live kernel object: current expression + the `IS_NORMALIZED` flag as the constructors cached it -/
+structure KObj (α : Type) where
+  expr : Kern α
+  normFlag : Bool
+  deriving Inhabited
+
+/-- in-place reconfigurations of a constructed kernel object -/
+inductive Reconf (α : Type) where
+  | setFactor (i : Nat) (f : α)          -- `ScaledKernel::setFactor` on the i-th ScaledKernel
+  | setParams (ps : List α)              -- `setParameterVector` on the outermost kernel
+
+/-- the constructors: the flag is computed from the sub-kernels' flags once -/
+def KObj.construct (k : Kern α) : KObj α := ⟨k, k.isNormalized⟩
+
+def KObj.apply (o : KObj α) : Reconf α → KObj α
+  | .setFactor i f => { o with expr := o.expr.setFactor f i }
+  | .setParams ps => { o with expr := o.expr.setParams exp ps }
+
+/-- a whole history of reconfigurations -/
+def KObj.run (o : KObj α) (h : List (Reconf α)) : KObj α := h.foldl (KObj.apply exp) o
+
+variable (sqrt : α → α)
+
+/-- `featureDistanceSqr(x1, x2)` of a live object: trusts the *cached* flag -/
+def KObj.featureDistanceSqr (o : KObj α) (x z : Point α) : α :=
+  match o.expr with
+  | .linear => distSqr x z
+  | k =>
+    if o.normFlag then
+      two - two * k.eval exp sqrt x z
+    else
+      k.eval exp sqrt x x - two * k.eval exp sqrt x z + k.eval exp sqrt z z
+
+/-- `RealMatrix featureDistanceSqr(batchX1, batchX2)` of `AbstractKernelFunction`
+(`LinearKernel` overrides it with the batch `distanceSqr`): `-2·K`, then `+2` (flag set) or
+`+ (k(x1ᵢ,x1ᵢ) + k(x2ⱼ,x2ⱼ))` row by row -/
+def KObj.featureDistanceBlock (o : KObj α) (X1 X2 : Mat α) : Mat α :=
+  match o.expr with
+  | .linear => X1.map fun x => X2.map fun z => distSqr x z
+  | k =>
+    let r := mapMat (· * (-two)) (k.evalBlock exp sqrt X1 X2)
+    if o.normFlag then mapMat (· + two) r
+    else
+      let kx2 := X2.map fun z => k.eval exp sqrt z z
+      List.zipWith (fun x row =>
+        let kx1 := k.eval exp sqrt x x
+        List.zipWith (fun v s => v + (kx1 + s)) row kx2) X1 r
+end
+
 /-! ### SubrangeKernel and PointSetKernel -/
 section
 variable {α : Type} [Add α] [Sub α] [Mul α] [Div α] [Neg α] [OfNat α 0] [OfNat α 1]
